@@ -354,7 +354,7 @@ pub fn directive_info(toks: &[Tk]) -> DirInfo {
 /// Trivia kinds. The first `ASCII_KINDS` are the original plain kinds (also the ones used for pairs); the others add
 /// the *content* dimension of comments: comment text made of multi-byte UTF-8 characters (one 2-byte, one 3-byte and
 /// one 4-byte character; comments and strings are the only places where the lexer takes non-ASCII bytes).
-pub const KINDS: [(&str, &str); 8] = [
+pub const KINDS: [(&str, &str); 9] = [
     ("space", " "),
     ("tab", "\t"),
     ("newline", "\n"),
@@ -362,12 +362,14 @@ pub const KINDS: [(&str, &str); 8] = [
     ("line-comment", "//c\n"),
     ("splice", "\\\n"),
     ("block-comment-utf8", "/*\u{e9}\u{2014}\u{1d6d1}*/"),
+    // a block comment whose text starts with `/` (the `*` of the opener must not close it) and contains `//`
+    ("block-comment-slash", "/*/ c // */"),
     ("line-comment-utf8", "//\u{e9}\u{2014}\u{1d6d1}\n"),
 ];
 pub const ASCII_KINDS: usize = 6;
 /// kinds of the single-insertion space: quick = the plain kinds + the non-ASCII block comment, thorough = all
 pub fn single_kinds(quick: bool) -> usize {
-    if quick { 7 } else { 8 }
+    if quick { 8 } else { 9 }
 }
 /// the plain kind with the same shape as a non-ASCII kind (used to attribute a failure: content or shape?)
 pub fn ascii_twin_kind(k: usize) -> Option<usize> {
@@ -1932,7 +1934,7 @@ pub fn run(ctx: &Ctx) -> i32 {
         .cloned()
         .collect();
     for u in unexpected {
-        rep.acc.violation(Violation { signature: format!("machinery|unexpected-absorbed-insertion|{}", u), detail: "an insertion was skipped as `absorbed by a neighbouring token` outside the expected classes (comment opener after `/`, text appended to a line comment)".into(), replay: String::new() });
+        rep.acc.violation(Violation { signature: format!("trivia|inserted-trivia-is-not-lexed-as-trivia|{}", u.split(" after ").next().unwrap_or("").trim_start_matches("absorbed ")), detail: format!("an inserted piece of trivia does not come out of the lexer as trivia of its own ({}), outside the two places where a neighbouring token absorbs it by design (a comment opener directly after `/`, text appended to a line comment)", u), replay: String::new() });
     }
     rep.assumptions = vec![
         "token boundaries are the spans of the real lexer, obtained through the public preprocess_fragment after replacing every `#` by `@` (same lexer branch, one byte) so that directive lines are lexed as text; `##` and the header name of #include lines are re-merged as the lexer does; the spans are checked to tile each file".into(),
